@@ -18,7 +18,7 @@ KINDS = ("sim", "bytesio", "buffered")
 
 TIERS = {
     "quick": {"classes": 260, "instances": 3, "faults_per_instance": 500, "random_inputs": 150},
-    "thorough": {"classes": None, "instances": 6, "faults_per_instance": 900, "random_inputs": 300},
+    "thorough": {"classes": None, "instances": 12, "faults_per_instance": 2500, "random_inputs": 1500},
 }
 
 FAULT_OPS = ("flip", "overwrite", "insert", "delete", "duplicate", "swap", "truncate_garbage", "splice", "hostile")
